@@ -7,7 +7,7 @@ from typing import List, Optional, Union
 
 from vf.cond import cond
 
-from .common import Environment, LiquidError, concrete_int, in_alpha
+from .common import Environment, LiquidError, concrete_int, in_alpha, untraced
 
 from liquid2 import RenderContext  # noqa: E402
 from liquid2.shopify import Environment as ShopifyEnvironment  # noqa: E402
@@ -131,14 +131,18 @@ _SEL_PRE = ["0 <= v0 < 5", "0 <= v1 < 5", "0 <= v2 < 5"]
     pre=_SEL_PRE,
     timeout=240,
     timeout_thorough=1200,
-    shard={"n": [1, 2], "t": [3, 4]},
-    shard_thorough={"n": [1, 2, 3], "t": [3, 4]},
+    shard={"n": [1, 2, 3], "t": [3, 4]},
     covers="where/reject partition the input in order; find = first(where); find_index and has agree with find; string-key form == lambda form (with a value)",
-    bounds="up to 3 hashes, key possibly missing (presence bits), values in {nil,false,true,0,1}, target in {0,1}; quick: up to 2 hashes",
+    bounds="up to 3 hashes, key possibly missing (presence bits), values in {nil,false,true,0,1}, target in {0,1}",
     grid=lambda: [(True, 3, False, 0, True, 4, 3, 3), (True, 0, True, 1, True, 2, 3, 4), (False, 0, False, 0, False, 0, 2, 4), (True, 4, True, 4, True, 4, 3, 4)],
 )
 def k_where_value(p0: bool, v0: int, p1: bool, v1: int, p2: bool, v2: int, n: int, t: int) -> bool:
-    x = _items(p0, concrete_int(v0, 0, 4), p1, concrete_int(v1, 0, 4), p2, concrete_int(v2, 0, 4), n)
+    x = _items(bool(p0), concrete_int(v0, 0, 4), bool(p1), concrete_int(v1, 0, 4), bool(p2), concrete_int(v2, 0, 4), n)
+    # the value domain is finite and every input is concrete from here on: run outside the tracer
+    return untraced(lambda: _k_where_value(x, t))
+
+
+def _k_where_value(x: list, t: int) -> bool:
     tv = VALS[t]
     w = ev("x | where: 'k', t", x=x, t=tv)
     rj = ev("x | reject: 'k', t", x=x, t=tv)
@@ -176,14 +180,18 @@ def k_where_value(p0: bool, v0: int, p1: bool, v1: int, p2: bool, v2: int, n: in
     pre=_SEL_PRE,
     timeout=240,
     timeout_thorough=1200,
-    shard={"n": [1, 2]},
-    shard_thorough={"n": [1, 2, 3]},
+    shard={"n": [1, 2, 3]},
     covers="truthy forms: where: 'k' / reject: 'k' / find / find_index / has without a value select items whose property is neither nil nor false; string-key form == lambda form",
     bounds="up to 3 hashes, key possibly missing, values in {nil,false,true,0,1,2}",
     grid=lambda: [(True, 3, False, 0, True, 1, 3), (True, 0, True, 1, True, 2, 3), (False, 0, False, 0, False, 0, 2)],
 )
 def k_where_truthy(p0: bool, v0: int, p1: bool, v1: int, p2: bool, v2: int, n: int) -> bool:
-    x = _items(p0, concrete_int(v0, 0, 4), p1, concrete_int(v1, 0, 4), p2, concrete_int(v2, 0, 4), n)
+    x = _items(bool(p0), concrete_int(v0, 0, 4), bool(p1), concrete_int(v1, 0, 4), bool(p2), concrete_int(v2, 0, 4), n)
+    # the value domain is finite and every input is concrete from here on: run outside the tracer
+    return untraced(lambda: _k_where_truthy(x))
+
+
+def _k_where_truthy(x: list) -> bool:
     want = [i for i in x if i.get("k") is not None and i.get("k") is not False]
     w = ev("x | where: 'k'", x=x)
     rj = ev("x | reject: 'k'", x=x)
@@ -202,6 +210,94 @@ def k_where_truthy(p0: bool, v0: int, p1: bool, v1: int, p2: bool, v2: int, n: i
     wl = ev("x | where: i => i.k", x=x)
     rl = ev("x | reject: i => i.k", x=x)
     return [i["id"] for i in wl] == [i["id"] for i in w] and [i["id"] for i in rl] == [i["id"] for i in rj] and ev("x | has: i => i.k", x=x) == h
+
+
+def _leq(a, b) -> bool:
+    """Liquid equality on the value domain used here: booleans are not numbers."""
+    if isinstance(a, bool) or isinstance(b, bool):
+        return isinstance(a, bool) and isinstance(b, bool) and a == b
+    return a == b
+
+
+_NIL_T = ENV.from_string("{% if v == nil %}1{% endif %}")
+
+
+def _is_nil(v) -> bool:
+    return _NIL_T.render(v=v) == "1"
+
+
+def _ids(r) -> list:
+    return [i["id"] for i in r]
+
+
+@cond(
+    pre=_SEL_PRE,
+    timeout=240,
+    timeout_thorough=1200,
+    shard={"n": [1, 2, 3]},
+    covers="property-name form == lambda form for uniq, compact, map, sum, sort_natural and sort_numeric on hashes whose key may be missing or nil; uniq: 'k' keeps exactly the first item per distinct property value under Liquid equality (true is not 1, a missing property is not nil); compact: 'k' keeps exactly the items whose property is present and not nil, in order; map yields one value per item",
+    bounds="up to 3 hashes, key possibly missing (presence bits), values in {nil,false,true,0,1}",
+    grid=lambda: [(True, 4, True, 2, True, 4, 3), (False, 0, True, 0, False, 0, 3), (True, 3, True, 1, True, 0, 3), (True, 0, False, 0, True, 0, 3), (True, 1, True, 3, False, 0, 3), (False, 0, False, 0, False, 0, 2)],
+)
+def k_keyed_forms(p0: bool, v0: int, p1: bool, v1: int, p2: bool, v2: int, n: int) -> bool:
+    x = _items(bool(p0), concrete_int(v0, 0, 4), bool(p1), concrete_int(v1, 0, 4), bool(p2), concrete_int(v2, 0, 4), n)
+    # the value domain is finite and every input is concrete from here on: run outside the tracer
+    return untraced(lambda: _k_keyed_forms(x))
+
+
+def _k_keyed_forms(x: list) -> bool:
+    # uniq
+    u = ev("x | uniq: 'k'", x=x)
+    seen: list = []
+    want = []
+    for i in x:
+        key = ("missing",) if "k" not in i else ("v", i["k"])
+        if not any(k[0] == key[0] and (k[0] == "missing" or _leq(k[1], key[1])) for k in seen):
+            seen.append(key)
+            want.append(i)
+    if _ids(u) != _ids(want) or _ids(ev("x | uniq: i => i.k", x=x)) != _ids(u):
+        return False
+    # compact
+    c = ev("x | compact: 'k'", x=x)
+    if _ids(c) != [i["id"] for i in x if i.get("k") is not None] or _ids(ev("x | compact: i => i.k", x=x)) != _ids(c):
+        return False
+    # map / sum / sorts: the two forms agree
+    m1, m2 = ev("x | map: 'k'", x=x), ev("x | map: i => i.k", x=x)
+    if len(m1) != len(x) or len(m2) != len(x):
+        return False
+    for a, b, i in zip(m1, m2, x):
+        if "k" in i and i["k"] is not None:
+            if not (a is i["k"] and b is i["k"]):
+                return False
+        elif not (_is_nil(a) and _is_nil(b)):
+            return False
+    if ev("x | sum: 'k'", x=x) != ev("x | sum: i => i.k", x=x):
+        return False
+    for f in ("sort_natural", "sort_numeric"):
+        a, b = ev("x | " + f + ": 'k'", x=x), ev("x | " + f + ": i => i.k", x=x)
+        if _ids(a) != _ids(b) or sorted(_ids(a)) != _ids(x):
+            return False
+    return True
+
+
+VALUE_POOL = [1, True, 0, False, None, "1", 1.0]
+
+
+@cond(
+    pre=["0 <= a < 7", "0 <= b < 7", "0 <= c < 7"],
+    timeout=120,
+    covers="uniq without arguments over mixed scalars: two items are duplicates exactly when Liquid's == says so (1 and 1.0 are, 1 and true / 0 and false / 1 and '1' / nil and false are not), whatever their order",
+    bounds="3 items from {1, true, 0, false, nil, '1', 1.0} (solver-chosen)",
+    grid=lambda: [(0, 1, 0), (1, 0, 1), (2, 3, 4), (3, 2, 2), (0, 6, 5), (4, 3, 4)],
+)
+def k_uniq_values(a: int, b: int, c: int) -> bool:
+    x = [VALUE_POOL[concrete_int(k, 0, 6)] for k in (a, b, c)]
+    want: list = []
+    for i in x:
+        if not any(_leq(i, w) for w in want):
+            want.append(i)
+    got = ev("x | uniq", x=x)
+    return len(got) == len(want) and all(g is w or (_leq(g, w) and type(g) is type(w)) for g, w in zip(got, want))
 
 
 @cond(
